@@ -3,6 +3,7 @@
 package main
 
 import (
+	"fmt"
 	"math/rand"
 	"servitor/config"
 	"servitor/jtp"
@@ -33,6 +34,46 @@ func init() {
 		/* a hook that is still running when the next keys arrive */
 		config.Parsed.Media.Hook = []string{"sleep", pick(r0(op), []string{"0.002", "0.005", "0.02"})}
 		defer func() { config.Parsed.Media.Hook = saved }()
+		/* ... or one the op names: exits at once, fails at once, fails with much output, cannot
+		   be started at all */
+		if hook := L(op, "hook"); len(hook) > 0 {
+			config.Parsed.Media.Hook = toStrings(hook)
+		}
+		/* feeds of this op (when it names any; otherwise the ones the process was configured with):
+		   live outboxes and threads, dead addresses, a mixture */
+		if fm, ok := op["feeds"].(map[string]any); ok {
+			savedFeeds := config.Parsed.Feeds
+			feeds := map[string][]string{}
+			for name, raw := range fm {
+				inputs := []string{}
+				for _, u := range raw.([]any) {
+					inputs = append(inputs, substitute(u.(string), sm.hosts, opid))
+				}
+				feeds[name] = inputs
+			}
+			config.Parsed.Feeds = feeds
+			defer func() { config.Parsed.Feeds = savedFeeds }()
+		}
+		/* latency drawn anew every few hundred microseconds, not once per op */
+		flipStop := make(chan struct{})
+		flipDone := make(chan struct{})
+		if !B(op, "flip") {
+			close(flipDone)
+		} else {
+			fr := rand.New(rand.NewSource(int64(I(op, "seed")) + 11))
+			go func() {
+				defer close(flipDone)
+				for {
+					select {
+					case <-flipStop:
+						return
+					case <-time.After(time.Duration(100+fr.Intn(900)) * time.Microsecond):
+					}
+					atomic.StoreInt64(&simLatencyMicros, int64(pick(fr, []int{0, 0, 100, 500, 3000, 12000, 30000})))
+				}
+			}()
+		}
+		defer func() { close(flipStop); <-flipDone }()
 		r := rand.New(rand.NewSource(int64(I(op, "seed"))))
 		var inCallback int32
 		var overlaps, frames, badHeights int64
@@ -51,22 +92,37 @@ func init() {
 		start := substitute(S(op, "start"), sm.hosts, opid)
 		stop := make(chan struct{})
 		var pollers sync.WaitGroup
-		pollers.Add(1)
-		go func() {
-			defer pollers.Done()
-			sizes := [][2]int{{80, 24}, {100, 40}, {20, 5}, {80, 24}, {120, 2}, {10, 10}}
-			i := 0
-			for {
-				select {
-				case <-stop:
-					return
-				case <-time.After(300 * time.Microsecond):
+		npollers := I(op, "pollers")
+		if npollers < 1 {
+			npollers = 1
+		}
+		for p := 0; p < npollers; p++ {
+			p := p
+			pollers.Add(1)
+			go func() {
+				defer pollers.Done()
+				sizes := [][2]int{{80, 24}, {100, 40}, {20, 5}, {80, 24}, {120, 2}, {10, 10}}
+				if npollers > 1 || B(op, "tiny") {
+					/* the smallest and a very large terminal too; several pollers disagree about the size */
+					sizes = append(sizes, [2]int{5, 3}, [2]int{1, 2}, [2]int{200, 70}, [2]int{3, 2})
 				}
-				i++
-				s.SetWidthHeight(sizes[i%len(sizes)][0], sizes[i%len(sizes)][1])
-			}
-		}()
-		go s.Subcommand("open", start)
+				i := p * 3
+				for {
+					select {
+					case <-stop:
+						return
+					case <-time.After(time.Duration(300+130*p) * time.Microsecond):
+					}
+					i++
+					s.SetWidthHeight(sizes[i%len(sizes)][0], sizes[i%len(sizes)][1])
+				}
+			}()
+		}
+		startcmd := S(op, "startcmd")
+		if startcmd != "feed" {
+			startcmd = "open"
+		}
+		go s.Subcommand(startcmd, start)
 		time.Sleep(2 * time.Millisecond)
 		var wg sync.WaitGroup
 		for _, raw := range L(op, "keys") {
@@ -78,8 +134,17 @@ func init() {
 					defer wg.Done()
 					s.Update(b)
 				}()
-				if r.Intn(3) == 0 {
-					time.Sleep(time.Duration(r.Intn(1500)) * time.Microsecond)
+				switch S(op, "gaps") {
+				case "none":
+					/* a burst: every key at once */
+				case "rare":
+					if r.Intn(40) == 0 {
+						time.Sleep(time.Duration(r.Intn(20000)) * time.Microsecond)
+					}
+				default:
+					if r.Intn(3) == 0 {
+						time.Sleep(time.Duration(r.Intn(1500)) * time.Microsecond)
+					}
 				}
 			}
 		}
@@ -92,30 +157,102 @@ func init() {
 			stuck = true
 		}
 		if !stuck {
-			waitSettled(s)
+			/* never waits for the mutex itself: a goroutine that went away with it must show as
+			   a stuck interface, not hang the harness */
+			deadline := time.Now().Add(10 * time.Second)
+			for {
+				if settled, _, free := s.VerifTrySettledHookHeld(); free && settled {
+					break
+				}
+				if time.Now().After(deadline) {
+					if _, _, free := s.VerifTrySettledHookHeld(); !free {
+						stuck = true
+					}
+					break
+				}
+				time.Sleep(2 * time.Millisecond)
+			}
 		}
 		close(stop)
-		pollers.Wait()
+		if !stuck {
+			/* behind a mutex that is never released the pollers wait for ever too */
+			pollersDone := make(chan struct{})
+			go func() { pollers.Wait(); close(pollersDone) }()
+			select {
+			case <-pollersDone:
+			case <-time.After(10 * time.Second):
+				stuck = true
+			}
+		}
 		sm.takeLog()
 		return map[string]any{"overlaps": atomic.LoadInt64(&overlaps), "stuck": stuck, "badheights": atomic.LoadInt64(&badHeights), "frames_emitted": atomic.LoadInt64(&frames) > 0}
 	}
 	groups["C08"] = group{gen: func(r *rand.Rand, n int, emit func(Op)) {
 		/* reuse the UI worlds; the key scripts are denser */
 		genUI(r, n, func(op Op) {
+			feeds, _ := op["feeds"].(map[string]any)
+			if feeds == nil {
+				feeds = map[string]any{}
+			}
+			/* feeds that point at dead addresses (refused at once), alone and next to live ones */
+			feeds["dead"] = []any{"https://127.0.0.1:1/a", "https://127.0.0.1:1/b"}
+			feeds["halfdead"] = append([]any{"https://127.0.0.1:1/a"}, L(Op(feeds), "home")...)
+			feedNames := []string{"home", "home", "mixed", "one", "none", "dead", "halfdead", "unknown"}
+			start := S(op, "start")
+			startcmd := S(op, "startcmd")
+			if startcmd != "feed" {
+				startcmd = ""
+			} else if _, known := feeds[start]; !known {
+				/* an unknown feed ends the program (the mutex stays locked on purpose) */
+				start = "home"
+			}
+			openArg := start
+			if startcmd == "feed" {
+				openArg = "https://{H0}/{OP}/t0"
+			}
 			keys := []any{}
 			for k := 0; k < 30+r.Intn(60); k++ {
-				switch weighted(r, 30, 5, 3, 2) {
+				switch weighted(r, 30, 5, 3, 3, 1) {
 				case 3:
-					keys = append(keys, ":feed home\r")
+					keys = append(keys, ":feed "+pick(r, feedNames)+"\r")
 				case 0:
 					keys = append(keys, pick(r, []string{"j", "j", "k", "k", "g", "h", "l", " ", " ", "c", "r", "a", "o", "p", "b"}))
 				case 1:
-					keys = append(keys, pick(r, []string{"1.", "2\r", "0\r", "1\x1b", "3\x7f"}))
+					keys = append(keys, pick(r, []string{"1.", "2\r", "0\r", "1\x1b", "3\x7f", "1\r", "10.", "o\x1b", "o1"}))
 				case 2:
-					keys = append(keys, ":open "+S(op, "start")+"\r")
+					keys = append(keys, ":open "+openArg+"\r")
+				case 4:
+					keys = append(keys, pick(r, []string{":bogus x\r", ":open https://127.0.0.1:1/dead\r", ":\x7f", "\x1b", ":open https://{H1}/{OP}/nothing-here\r"}))
 				}
 			}
-			emit(Op{"op": "uistress", "routes": op["routes"], "start": op["start"], "keys": keys, "latency": pick(r, []int{0, 200, 2000, 8000}), "seed": r.Intn(1 << 30)})
+			/* some answers are cut short, reset or dribble in (never silent for long: the stress
+			   has its own clock) */
+			routes := []any{}
+			for _, rt := range L(op, "routes") {
+				m := rt.(map[string]any)
+				if S(Op(m), "fault") == "" && r.Intn(12) == 0 {
+					resp := S(Op(m), "resp")
+					c := map[string]any{}
+					for k, v := range m {
+						c[k] = v
+					}
+					c["fault"] = pick(r, []string{fmt.Sprintf("cut:%d:eof", r.Intn(len(resp)+1)), fmt.Sprintf("cut:%d:reset", r.Intn(len(resp)+1)), "cut:0:reset", "trickle:1"})
+					if c["fault"] == "trickle:1" && len(resp) > 700 {
+						c["fault"] = "cut:40:eof"
+					}
+					routes = append(routes, c)
+					continue
+				}
+				routes = append(routes, rt)
+			}
+			out := Op{"op": "uistress", "routes": routes, "start": start, "keys": keys, "latency": pick(r, []int{0, 200, 2000, 8000}), "seed": r.Intn(1 << 30),
+				"feeds": feeds, "pollers": pick(r, []int{1, 1, 2, 3}), "gaps": pick(r, []string{"third", "third", "none", "rare"}), "flip": r.Intn(3) == 0, "tiny": r.Intn(3) == 0,
+				"hook": pick(r, [][]any{{"sleep", "0.002"}, {"sleep", "0.005"}, {"sleep", "0.02"}, {"true"}, {"false"}, {"sh", "-c", "echo boom >&2; exit 1"},
+					{"sh", "-c", "head -c 200000 /dev/zero | tr '\\0' 'x'; echo; exit 1"}, {"/nonexistent/viewer", "%url"}, {"sh", "-c", "cat >/dev/null; exit 0"}})}
+			if startcmd != "" {
+				out["startcmd"] = startcmd
+			}
+			emit(out)
 		})
 	}}
 }
